@@ -34,6 +34,16 @@ type ixEvent struct {
 	Poor    bool   `json:"sender_cannot_pay,omitempty"` // sent by an account without funds: runs, then fails at the fee
 }
 
+// deliveryChainOf: whose delivery set an IBTP for this service belongs to - the appchain, or the union pier
+// when the service lives on another BitXHub.
+func deliveryChainOf(full string) string {
+	p := strings.Split(full, ":")
+	if len(p) == 3 && p[0] != harness.BxhID {
+		return "default_union_pier_id"
+	}
+	return chainOf(full)
+}
+
 func chainOf(full string) string {
 	p := strings.Split(full, ":")
 	if len(p) != 3 {
@@ -58,6 +68,13 @@ func ensureFixture(work string, o harness.Options) (string, error) {
 	// one service registered as unordered ("batch"): used as a source only - for an unordered destination the
 	// contract deliberately skips the request index check, which is outside what C02 states for ordered pairs
 	if err := w.RegisterService(harness.ChainAdmin(harness.ChainC), harness.ChainC, "s3", false, ""); err != nil {
+		w.R.Close()
+		os.RemoveAll(dir)
+		return "", err
+	}
+	// the other BitXHub: requests towards it are accepted and time out like any other (its receipts would
+	// need its validators' signatures, which this workload does not produce)
+	if err := registerHub(w); err != nil {
 		w.R.Close()
 		os.RemoveAll(dir)
 		return "", err
@@ -102,6 +119,8 @@ func ixPairs(rng *rand.Rand) []ixPairDef {
 		{ixServices[1], ixServices[1], true, false},                            // a service addressing itself: source and destination record are one
 		{ixServices[2], ixServices[3], true, false},                            // two services of one chain
 		{harness.FullID(harness.ChainC, "s3"), ixServices[2], true, false},     // the source is registered as unordered: its receipts are index-checked all the same
+		{ixServices[0], hubID + ":cX:sY", true, true},                          // towards a service of the other BitXHub: requests only (receipts lack its validators' signatures)
+		{ixServices[2], hubID + ":cX:mint,burn,swap", true, true},              // the same with a service id that contains the separator of the timeout lists: refused at the door
 	}
 	n := 3 + rng.Intn(4)
 	rng.Shuffle(len(all), func(i, j int) { all[i], all[j] = all[j], all[i] })
@@ -201,6 +220,13 @@ func (ir *ixRun) runBlock(evs []ixEvent) error {
 		default:
 			typ := map[string]pb.IBTP_Type{model.KReq: pb.IBTP_INTERCHAIN, model.KRcpSuccess: pb.IBTP_RECEIPT_SUCCESS, model.KRcpFailure: pb.IBTP_RECEIPT_FAILURE, model.KRcpRollbk: pb.IBTP_RECEIPT_ROLLBACK}[ev.Kind]
 			ib := harness.MkIBTP(ev.From, ev.To, ev.Index, typ, ev.Timeout)
+			if strings.Contains(ev.From+ev.To, ",") {
+				// ids of open transactions are kept in comma separated lists: such an id is not a valid service id
+				txs = append(txs, w.IBTPTx(pier, ib, []byte("proof")))
+				subs = append(subs, sub{ev: ev, accept: false, why: "service id contains a comma", isIBTP: true})
+				ir.w.Count("ibtp_with_comma_in_service_id", 1)
+				continue
+			}
 			if ev.Poor {
 				// the contracts accept it, then the fee cannot be paid: FAILED receipt, everything reverted - for
 				// the model this request was never made
@@ -313,7 +339,7 @@ func (ir *ixRun) runBlock(evs []ixEvent) error {
 					ir.viol("C02", "delivery:rejected-ibtp-announced", fmt.Sprintf("block %d: tx index %d is announced to chain %s but is not an accepted IBTP of this block", h, vi.Index, chain))
 					continue
 				}
-				if chain != chainOf(s.ev.From) && chain != chainOf(s.ev.To) {
+				if chain != deliveryChainOf(s.ev.From) && chain != deliveryChainOf(s.ev.To) {
 					ir.viol("C02", "delivery:wrong-chain", fmt.Sprintf("block %d: IBTP %s->%s announced to unrelated chain %s", h, s.ev.From, s.ev.To, chain))
 				}
 			}
@@ -323,7 +349,7 @@ func (ir *ixRun) runBlock(evs []ixEvent) error {
 				continue
 			}
 			n := 0
-			if sl := res.Meta.Counter[chainOf(s.ev.To)]; sl != nil {
+			if sl := res.Meta.Counter[deliveryChainOf(s.ev.To)]; sl != nil {
 				for _, vi := range sl.Slice {
 					if int(vi.Index) == i {
 						n++
